@@ -73,6 +73,15 @@ def run(chk):
                 for ft, view in (("f64", "u64"), ("f32", "float")):
                     cells.append(dict(kind="dens_%s_%s_%s" % (alg, ft, view), m=m, groups=groups, shape=name + "+reuse", oracle=j,
                                       reuse=True, trials=trials_for(m, n, quick)))
+    # the crate's identity hasher: identifiers below 2^32 (their hash has an all-zero low word) and pairs of
+    # identifiers that differ by two swapped bytes, all three views
+    for name, m, groups, j in shapes():
+        if name in ("sparse-nested-m256", "half-full-m64", "one-vs-two-m16", "three-items-m3"):
+            n = sum(g[0] for g in groups)
+            for alg in ("opt", "rev"):
+                for ft, view, ids in (("f64", "u32", "low32"), ("f64", "u64", "paired"), ("f32", "float", "paired"), ("f64", "u32", "paired")):
+                    cells.append(dict(kind="dens_%s_%s_%s_no" % (alg, ft, view), m=m, groups=groups, shape=name + "+idhash-" + ids,
+                                      oracle=j, ids=ids, trials=trials_for(m, n, quick)))
     res = freqfam.run_pairs(chk, cells, "pairs")
     freqfam.judge_pairs(chk, cells, res, "pairs", check_mse=False)
     chk.cov["pair_cells"] = len(cells)
